@@ -938,3 +938,75 @@ fn test_sieve_block() {
     eprintln!("smooth {:?}", res);
     assert_eq!(res, expect);
 }
+
+/// Verification hooks (only with `--cfg yamaquasi_verif`): private contents of the
+/// bucket tables (`SieveTable`, `SieveTableLarge`). Add-only wrappers.
+#[cfg(yamaquasi_verif)]
+pub mod verif_hooks {
+    use super::*;
+
+    pub fn table_new(nblocks: usize) -> SieveTable {
+        SieveTable::new(nblocks)
+    }
+    pub fn table_add(t: &mut SieveTable, offset: usize, pidx: u32) {
+        t.add(offset, pidx)
+    }
+    pub fn table_reset(t: &mut SieveTable) {
+        t.reset()
+    }
+    /// (n_overflows, sum of bucket lengths, number of buckets)
+    pub fn table_counts(t: &SieveTable) -> (usize, usize, usize) {
+        (
+            t.n_overflows,
+            t.blens.iter().map(|&l| l as usize).sum(),
+            t.blens.len(),
+        )
+    }
+    /// Visible entries of bucket `b`: (offset inside the bucket, low byte of the prime index).
+    pub fn table_bucket(t: &SieveTable, b: usize) -> Vec<(u8, u8)> {
+        let blen = t.blens[b] as usize;
+        (b * BUCKET_SIZE..b * BUCKET_SIZE + blen)
+            .map(|i| {
+                assert!(i < t.entries.len());
+                unsafe { t.unchecked_entry(i) }
+            })
+            .collect()
+    }
+    /// Raw entry `idx` of the entries array, visible or not.
+    pub fn table_entry_raw(t: &SieveTable, idx: usize) -> (u8, u8) {
+        assert!(idx < t.entries.len());
+        unsafe { t.unchecked_entry(idx) }
+    }
+    /// The overflow slots `smooths` looks at.
+    pub fn table_overflow_list(t: &SieveTable) -> Vec<(u16, u8)> {
+        t.overflows[..min(t.overflows.len(), t.n_overflows)].to_vec()
+    }
+
+    pub fn ltable_new(nblocks: usize) -> SieveTableLarge {
+        SieveTableLarge::new(nblocks)
+    }
+    pub fn ltable_add(t: &mut SieveTableLarge, offset: usize, pidx: usize) {
+        t.add(offset, pidx)
+    }
+    pub fn ltable_reset(t: &mut SieveTableLarge) {
+        t.reset()
+    }
+    /// (number of overflow entries, sum of bucket lengths, number of buckets)
+    pub fn ltable_counts(t: &SieveTableLarge) -> (usize, usize, usize) {
+        (
+            t.overflows.len(),
+            t.lengths.iter().map(|&l| l as usize).sum(),
+            t.lengths.len(),
+        )
+    }
+    fn split(e: u32) -> (u16, u16) {
+        unsafe { std::mem::transmute::<u32, (u16, u16)>(e) }
+    }
+    /// Visible entries of large bucket `b`: (offset inside the block, low 16 bits of the prime index).
+    pub fn ltable_bucket(t: &SieveTableLarge, b: usize) -> Vec<(u16, u16)> {
+        t.bucket_offsets(b).iter().map(|&e| split(e)).collect()
+    }
+    pub fn ltable_overflow_list(t: &SieveTableLarge) -> Vec<(u16, u16)> {
+        t.overflows.iter().map(|&e| split(e)).collect()
+    }
+}
